@@ -110,6 +110,39 @@ def probe_identity_keys(ctx):
     return n
 
 
+def probe_unprintable_keys(ctx):
+    """Errors located at or below a dict key that repr() cannot print (an int beyond the int -> str digit limit): the
+    message still names the error's whole path - every printable step, and the missing key / index of a
+    "does not exist" error as its last step."""
+    from d42 import schema, validate
+    from d42.validation import Formatter
+    big = 10 ** 5000
+    fmt = Formatter("root")
+    cases = [
+        (schema.dict({big: schema.dict({"name": schema.str, "id": schema.int})}), {big: {"id": 1}}, ["root[", "['name']"]),
+        (schema.dict({big: schema.list([schema.int, schema.str])}), {big: [1]}, ["root[", "[1]"]),
+        (schema.dict({"o": schema.dict({big: schema.dict({"a": schema.dict({"b": schema.int})})})}), {"o": {big: {"a": {"b": "x"}}}}, ["root['o'][", "['a']['b']"]),
+        (schema.dict({big: schema.dict({"k": schema.list(schema.int)})}), {big: {"k": [1, "x"]}}, ["root[", "['k'][1]"]),
+        (schema.dict({"a": schema.dict({big: schema.int, "z": schema.int})}), {"a": {big: 1}}, ["root['a']['z']"]),
+        (schema.dict({big: schema.dict({big: schema.int, "q": schema.int})}), {big: {big: 1}}, ["root[", "['q']"]),
+    ]
+    n = 0
+    for s, v, want in cases:
+        for e in validate(s, v).get_errors():
+            n += 1
+            try:
+                text = e.format(fmt)
+            except Exception as ex:  # noqa
+                text = f"<format raised {type(ex).__name__}>"
+            missing = [w for w in want if w not in text]
+            if missing:
+                ctx.violation("the message of an error below a key that repr() cannot print does not name the error's path",
+                              {"kind": "input", "schema": "a dict schema declaring the key 10**5000 (see the case list of probe_unprintable_keys)",
+                               "observed": text[:300], "expected": f"a message containing {want}"})
+                return n
+    return n
+
+
 def oracle(c, ctx, fmt, validator):
     """Direct check of the property on the implementation's own error list."""
     bad = []
@@ -211,7 +244,7 @@ def run(ctx):
             rp = c.replay_dict()
             rp.update(observed=pr, expected="path resolves to the reported value, fact true, message names the path")
             ctx.violation(pr, rp)
-    identity_key_errors = probe_identity_keys(ctx)
+    identity_key_errors = probe_identity_keys(ctx) + probe_unprintable_keys(ctx)
     modelled = [c for c in cases if c.term is not None]
     bad = common.eval_cases(ctx.workdir, "c03", [c.term for c in modelled], "vcase", "vcase_ok")
     dist, kinds = vsuite.distribution(cases)
